@@ -358,13 +358,13 @@ fn ufamily<T: UFamily>(ctx: &mut Ctx, arena: &Arena)
 where
     T::Header: multiboot2_common::Header,
 {
-    for size in T::HDR..=48 {
+    for (size, zero) in (T::HDR..=48).map(|s| (s, false)).chain((T::HDR..=48).map(|s| (s, true))) {
         let mut img = vec![0u8; round8(size).max(8)];
         for i in 0..img.len() {
-            img[i] = marker(i, 67);
+            img[i] = if zero { 0 } else { marker(i, 67) };
         }
         wr32(&mut img, T::SIZE_OFF, size as u32);
-        let describe = || J::obj().set("seam", "cast (user-defined header)").set("type", T::NAME).set("tag_size", size).set("tag", J::hex(&img));
+        let describe = || J::obj().set("seam", "cast (user-defined header)").set("type", T::NAME).set("tag_size", size).set("all_zero", zero).set("tag", J::hex(&img));
         ctx.leaf(describe, |ctx| {
             ctx.state_direct();
             ctx.nontrivial();
@@ -414,15 +414,22 @@ fn family<T: Family + ?Sized>(ctx: &mut Ctx, arena: &Arena, max: usize) {
         });
     }
     // payloads: marker bytes, and end-tag images throughout (every 8-byte word reads (type 0, size 8))
-    for (size, look) in (8..=max).map(|s| (s, false)).chain((8..=max).map(|s| (s, true))) {
+    // ... and all-zero and all-ones payloads (a "reserved, zeroed" or "erased" trailing unit must not relax the cast)
+    for (size, mode) in (0u8..4).flat_map(|m| (8..=max).map(move |s| (s, m))) {
+        let content = ["marker bytes", "end-tag images", "all zero", "all ones"][mode as usize];
         let mut img = vec![0u8; round8(size)];
         for i in 0..img.len() {
-            img[i] = if look { [0u8, 0, 0, 0, 8, 0, 0, 0][i % 8] } else { marker(i, 71) };
+            img[i] = match mode {
+                1 => [0u8, 0, 0, 0, 8, 0, 0, 0][i % 8],
+                2 => 0,
+                3 => 0xFF,
+                _ => marker(i, 71),
+            };
         }
         wr32(&mut img, 0, id);
         wr32(&mut img, 4, size as u32);
         // tag-level: ref_from_slice + cast, flush against the guard page
-        let describe = || J::obj().set("seam", "cast").set("type", T::NAME).set("tag_size", size).set("end_tag_images_as_payload", look).set("tag", J::hex(&img));
+        let describe = || J::obj().set("seam", "cast").set("type", T::NAME).set("tag_size", size).set("payload_content", content).set("tag", J::hex(&img));
         ctx.leaf(describe, |ctx| {
             ctx.state_direct();
             ctx.nontrivial();
@@ -440,7 +447,7 @@ fn family<T: Family + ?Sized>(ctx: &mut Ctx, arena: &Arena, max: usize) {
         for slack in [8usize, 16, 24] {
             let mut long = img.clone();
             long.extend((0..slack).map(|i| marker(i, 77)));
-            let describe = || J::obj().set("seam", "cast-from-longer-slice").set("type", T::NAME).set("tag_size", size).set("end_tag_images_as_payload", look).set("slack", slack).set("slice", J::hex(&long));
+            let describe = || J::obj().set("seam", "cast-from-longer-slice").set("type", T::NAME).set("tag_size", size).set("payload_content", content).set("slack", slack).set("slice", J::hex(&long));
             ctx.leaf(describe, |ctx| {
                 ctx.state_direct();
                 ctx.nontrivial();
@@ -457,7 +464,7 @@ fn family<T: Family + ?Sized>(ctx: &mut Ctx, arena: &Arena, max: usize) {
         }
         // region-level: BootInformation::get_tag::<T>()
         let region = bi::region(&[bi::sample(bi::MEMINFO, 1, 0), img[..size].to_vec(), bi::end_tag()], &|_, k| img.get(size + k).copied().unwrap_or(0));
-        let describe = || J::obj().set("seam", "get_tag").set("type", T::NAME).set("tag_size", size).set("end_tag_images_as_payload", look).set("region", J::hex(&region));
+        let describe = || J::obj().set("seam", "get_tag").set("type", T::NAME).set("tag_size", size).set("payload_content", content).set("region", J::hex(&region));
         ctx.leaf(describe, |ctx| {
             ctx.state_direct();
             ctx.nontrivial();
@@ -531,7 +538,7 @@ impl Family for Huge4G {
 fn run(ctx: &mut Ctx) {
     let arena = Arena::new(2);
     let max = if ctx.quick() { 96 } else { 512 };
-    ctx.bound("family", format!("user-defined tag types following the MaybeDynSized contract: sized with 0..=6 extra u32 words; DSTs with element sizes 1,2,3,4,8,24 and fixed parts 8,12,16,20,24 (where the element alignment allows): 33 types with alignment 8 plus two 16-aligned ones (a u128 field; tags placed at 16-aligned addresses) x every tag size 0..={} (payload: marker bytes, and end-tag images in every 8-byte word); via cast (tag flush against a guard page, fills A/B) and via BootInformation::get_tag", max));
+    ctx.bound("family", format!("user-defined tag types following the MaybeDynSized contract: sized with 0..=6 extra u32 words; DSTs with element sizes 1,2,3,4,8,24 and fixed parts 8,12,16,20,24 (where the element alignment allows): 33 types with alignment 8 plus two 16-aligned ones (a u128 field; tags placed at 16-aligned addresses) x every tag size 0..={} (payload: marker bytes, end-tag images in every 8-byte word, all zero, all ones); via cast (tag flush against a guard page, fills A/B) and via BootInformation::get_tag", max));
     macro_rules! fam { ($($t:ty),*) => { $( family::<$t>(ctx, &arena, max); )* } }
     fam!(Sized0, Sized1, Sized2, Sized3, Sized4, Sized5, Sized6);
     fam!(D8E1, D12E1, D16E1, D20E1, D24E1, D8E2, D12E2, D16E2, D20E2, D24E2, D8E3, D12E3, D16E3, D20E3, D24E3);
@@ -546,7 +553,7 @@ fn run(ctx: &mut Ctx) {
         macro_rules! faml { ($($t:ty),*) => { $( family_large::<$t>(ctx, &big); )* } }
         faml!(Sized0, Sized1, Sized2, Sized3, Sized4, Sized5, Sized6, D8E1, D16E8, D12E4, A16Sized, L4S12);
     }
-    ctx.bound("user_headers", "user-defined header kinds of 12 bytes (type, size, flags; alignment 4) and 4 bytes (size only) with sized tag types of 0..=5 extra words on top (8-aligned, and with their natural alignment of 4): every structure size from the header size to 48; via ref_from_slice + cast, flush against a guard page, fills A/B");
+    ctx.bound("user_headers", "user-defined header kinds of 12 bytes (type, size, flags; alignment 4) and 4 bytes (size only) with sized tag types of 0..=5 extra words on top (8-aligned, and with their natural alignment of 4): every structure size from the header size to 48 (marker bytes, and all zero); via ref_from_slice + cast, flush against a guard page, fills A/B");
     macro_rules! ufam { ($($t:ty),*) => { $( ufamily::<$t>(ctx, &arena); )* } }
     ufam!(U12W0, U12W1, U12W2, U12W3, U12W4, U12W5, U4W0, U4W1, U4W2, U4W3, U4W5, N12W0, N12W1, N12W2, N12W3, N12W4, N4W0, N4W1, N4W2, N4W4);
     // built-in kinds x all sizes
